@@ -81,9 +81,13 @@ Prop(in) == [blk |-> B(in.blk), tc |-> in.tc]
 LoggedKinds(e, kind) == SelectSeq(e.out, LAMBDA x : x.k = kind)
 HasKind(e, kind) == LoggedKinds(e, kind) # <<>>
 
+\* the batch digests of a block's payload (from the dictionary); availability of a payload is judged by the MODEL from the
+\* keys written to the node's store so far (have), not taken from the log
+PayloadOf(id) == IF id = 0 \/ id \notin DOMAIN BInfo THEN {} ELSE {BInfo[id].payload[i] : i \in 1..Len(BInfo[id].payload)}
+
 \* what the model predicts for a core record
 Predict(e, s0) ==
-  CASE e.k = "Propose"  -> HandleProposal(s0, Prop(e.in), ~HasKind(e, "paywait"))
+  CASE e.k = "Propose"  -> HandleProposal(s0, Prop(e.in), PayloadOf(e.in.blk) \subseteq have[s0.me])
     [] e.k = "Loopback" -> Loopback(s0, Prop(e.in))
     [] e.k = "Vote"     -> HandleVote(s0, [blk |-> B(e.in.blk), author |-> e.in.author])
     [] e.k = "Timeout"  -> HandleTimeout(s0, [round |-> e.in.round, author |-> e.in.author, hq |-> B(e.in.hq)])
@@ -146,9 +150,12 @@ NoDiverge == UNCHANGED <<div, ndiv>>
 
 \* C08: when the node votes for a block of another authority, or delivers a block as committed, every batch digest of
 \* the block's payload is a key the node's own store holds (written by its mempool Processor before this step)
-PayloadOf(id) == IF id = 0 \/ id \notin DOMAIN BInfo THEN {} ELSE {BInfo[id].payload[i] : i \in 1..Len(BInfo[id].payload)}
 AvailViol(n, e) ==
-  LET vs == LoggedKinds(e, "vote")  cs == LoggedKinds(e, "commit") IN
+  LET vs == LoggedKinds(e, "vote")  cs == LoggedKinds(e, "commit")  ss == LoggedKinds(e, "store") IN
+  \* "a proposal whose batches are missing is parked until they arrive": a block of another authority is processed (stored)
+  \* only when its batches are in the node's own store
+  (IF \A i \in 1..Len(ss) : (ss[i].blk \in DOMAIN BInfo /\ BInfo[ss[i].blk].author = n) \/ PayloadOf(ss[i].blk) \subseteq have[n]
+      THEN {} ELSE {<<"C08.ParkedUntilPayloadArrives", l>>}) \cup
   (IF \A i \in 1..Len(vs) : (vs[i].blk \in DOMAIN BInfo /\ BInfo[vs[i].blk].author = n) \/ PayloadOf(vs[i].blk) \subseteq have[n] THEN {} ELSE {<<"C08.VoteHasPayload", l>>}) \cup
   (IF \A i \in 1..Len(cs) : PayloadOf(cs[i].blk) \subseteq have[n] THEN {} ELSE {<<"C08.CommitHasPayload", l>>})
 
@@ -248,11 +255,12 @@ Reset ==
 Skip == UNCHANGED <<vars, div, ndiv, lst, nsteps, viol, have, seen, mp>>
 End == viol' = viol \cup BoundaryViol /\ UNCHANGED <<vars, div, ndiv, lst, nsteps, have, seen, mp>>
 \* C12 at system level (full-node runs): a batch this node sealed is handed on (QWRelease) only when its own stake plus the
-\* stake of the distinct authorities whose acknowledgement had reached it is a quorum, and is stored as deliverable only after that
+\* stake of the distinct authorities whose acknowledgement had reached it is a quorum
 Stored(e) ==
   /\ have' = [have EXCEPT ![e.node] = @ \cup {e.digest}]
-  /\ viol' = IF e.digest \in mp[e.node].own /\ e.digest \notin mp[e.node].rel THEN viol \cup {<<"C12.OwnBatchStoredAfterQuorum", l>>} ELSE viol
-  /\ UNCHANGED <<vars, div, ndiv, lst, nsteps, seen, mp>>
+  \* (no ordering is demanded between the store and the release: the creator may legitimately obtain its own batch through
+  \* the sync path when a peer proposes it first -- Node.tla shows that run; the sound statement is the one on QWRelease)
+  /\ UNCHANGED <<vars, div, ndiv, lst, nsteps, seen, mp, viol>>
 MpEvent(e) ==
   LET n == e.node IN
   /\ CASE e.k = "Seal" -> mp' = [mp EXCEPT ![n].own = @ \cup {e.digest}] /\ UNCHANGED viol
